@@ -10,12 +10,12 @@ import time
 from concurrent.futures import ThreadPoolExecutor
 
 import procsim
-from common import (NCPU, SIM_DIR, TARGET, VERIF, HarnessError, Rng, cargo_env, cleanup_run_dir, cli_bin, derive, load_known_findings,
+from common import (discovered_env_reads, discovered_env_value, NCPU, SIM_DIR, TARGET, VERIF, HarnessError, Rng, cargo_env, cleanup_run_dir, cli_bin, derive, load_known_findings,
                     log, run_dir, sh, shim_env, short_hash, sim_bin, write_evidence, write_replay, SHIM_SO, LAUNCH)
 from procsim import HEADER_RE, base_env, run_child, split_driver_output
 
-ROUTES = ["lib", "lib_after_others", "cli", "cli_release", "compile_file", "compile_dir", "compile_exit"]
-FACTORS = ["entropy", "clock", "envvars", "cwd", "spelling", "stdout", "heap_pad", "arg_order", "cpus"]
+ROUTES = ["lib", "lib_again", "lib_after_others", "cli", "cli_release", "compile_file", "compile_dir", "compile_exit"]
+FACTORS = ["entropy", "clock", "envvars", "cwd", "spelling", "stdout", "heap_pad", "arg_order", "cpus", "file_mode"]
 
 
 CARGO_LIKE = ["CARGO_PKG_NAME", "CARGO_CRATE_NAME", "CARGO_BIN_NAME", "CARGO_PKG_VERSION", "CARGO_PRIMARY_PACKAGE", "PROFILE", "TARGET", "HOST",
@@ -24,6 +24,10 @@ CARGO_LIKE = ["CARGO_PKG_NAME", "CARGO_CRATE_NAME", "CARGO_BIN_NAME", "CARGO_PKG
 
 def gen_env(rng, idents=(), path_leads=()):
     ev = {}
+    for name, lits in discovered_env_reads():
+        # variables the working tree reads at run time: absent, or one of the literals next to the read, or a stock value
+        if rng.coin(600):
+            ev[name] = discovered_env_value(rng, lits)
     if path_leads and rng.coin(500):
         # the build's own crate/package name equals the first segment of a user path in the grammar
         ev[rng.choice(["CARGO_PKG_NAME", "CARGO_CRATE_NAME"])] = rng.choice(path_leads)
@@ -68,11 +72,13 @@ def gen_env(rng, idents=(), path_leads=()):
         "clock": "%d:%d" % (rng.range(978307200, 2208988800), rng.choice([0, 1000, 1000000000, 86400000000000])),
         "envvars": ev,
         "cwd": rng.choice(["proj", "root", "sim"]),
-        "spelling": rng.choice(["abs", "rel", "dotrel", "symlink", "redundant"]),
+        # how the grammar is named: spellings of its path, or /dev/stdin fed through a pipe (no size, no seeking)
+        "spelling": rng.choice(["abs", "rel", "dotrel", "symlink", "redundant", "devstdin"]),
         "stdout": rng.choice(["pipe", "file", "tty"]),
         "cpus": rng.choice([None, None, "0", "0-3"]),
         "heap_pad": rng.choice([0, 0, 7, 100, 1000]),
         "arg_order": rng.below(1 << 30),
+        "file_mode": rng.choice([0o644, 0o644, 0o444, 0o755, 0o600, 0o400]),
     }
 
 
@@ -187,8 +193,13 @@ def run_route(route, sim, env, simdir, k, stats=None):
     gpath = os.path.join(proj, "grammars", "g.ebnf")
     with open(gpath, "wb") as f:
         f.write(bytes.fromhex(sim["grammar_hex"]))
+    os.chmod(gpath, env.get("file_mode", 0o644))
     cwd = {"proj": proj, "root": "/", "sim": envdir}[env["cwd"]]
     g_sp = spell(gpath, env["spelling"], simdir, envdir, cwd)
+    child_stdin = None
+    if env["spelling"] == "devstdin" and route != "compile_dir" and not (sim.get("prefill_hex") and route.startswith("compile")):
+        g_sp = "/dev/stdin"
+        child_stdin = bytes.fromhex(sim["grammar_hex"])
     dest = os.path.join(proj, "out", "out.rs")
     d_sp = spell(dest, env["spelling"], simdir, envdir, cwd)
     e = base_env("present")
@@ -232,6 +243,9 @@ def run_route(route, sim, env, simdir, k, stats=None):
 
     if route == "lib":
         argv = [sim_bin("driver"), "gen", g_sp] + sa
+    elif route == "lib_again":
+        # the Grammar value has a history inside the process (used before, cloned, Debug-printed)
+        argv = [sim_bin("driver"), "gen", g_sp] + sa + ["--again", Rng(env.get("arg_order", 0) + 17).choice(["same", "thrice", "clone_after", "clone_before", "debug_first"])]
     elif route == "lib_after_others":
         argv = [sim_bin("driver"), "gen-multi"] + comp_paths + [g_sp] + sa
     elif route.startswith("cli"):
@@ -253,7 +267,7 @@ def run_route(route, sim, env, simdir, k, stats=None):
         if os.path.isfile(dest):
             os.utime(dest, (2208988800, 2208988800))
     c = run_child(argv, cwd, e, entropy=env["entropy"], clock=env["clock"], heap_pad=env["heap_pad"], stdout_path=stdout_path,
-                  stdout_tty=stdout_tty, cpus=env.get("cpus"))
+                  stdout_tty=stdout_tty, cpus=env.get("cpus"), stdin=child_stdin)
     r = {"crashed": c.crashed(), "status": c.status_word(), "ok": False, "bytes": None, "canary": None, "stderr": c.err[-300:].decode(errors="replace")}
     if c.crashed():
         return r
@@ -263,7 +277,7 @@ def run_route(route, sim, env, simdir, k, stats=None):
         return r
     canary, marker, rest = split_driver_output(c.out)
     r["canary"] = canary
-    if route in ("lib", "lib_after_others"):
+    if route in ("lib", "lib_again", "lib_after_others"):
         r["ok"] = marker == "OK"
         r["bytes"] = rest if r["ok"] else None
         return r
@@ -289,7 +303,7 @@ def normalise(route, data, prefix):
     """Generated code without the route's own framing (header, prefix, trailing newline); None if the framing is not there."""
     if data is None:
         return None
-    if route in ("lib", "lib_after_others"):
+    if route in ("lib", "lib_again", "lib_after_others"):
         return data[:-1] if data.endswith(b"\n") else data
     header, tail = procsim.split_header(data)
     if not header:
